@@ -40,7 +40,9 @@ Definition basename (s : bytes) : bytes := basename_aux s s.
 (* ------------------------------------------------------------------ patterns *)
 Inductive ptype := PSimple | PRegex | PGlob.
 Record patt := { pt_type : ptype; pt_str : bytes }.
-Record pitem := { pi_patt : patt; pi_mod : bytes; pi_pos : bool }.
+(* pi_exact: no "@module" was given - the default module (the main executable's file name) must be
+   the module's name, not just a prefix of it (after "fix: dynamic: a pattern without @module ...") *)
+Record pitem := { pi_patt : patt; pi_mod : bytes; pi_pos : bool; pi_exact : bool }.
 
 Record oracle := {
   o_regcomp : bytes -> bool;            (* regcomp(REG_NOSUB|REG_EXTENDED) succeeds *)
@@ -105,18 +107,25 @@ Definition parse_item (O : oracle) (def_mod : bytes) (t : ptype) (name : bytes) 
   let '(pat, modopt) := split_at name1 in
   {| pi_patt := init_filter_pattern O t pat;
      pi_mod := match modopt with Some m => m | None => def_mod end;
-     pi_pos := pos |}.
+     pi_pos := pos;
+     pi_exact := match modopt with Some _ => false | None => true end |}.
 
 Definition parse_pattern_list (O : oracle) (patch_funcs def_mod : bytes) (t : ptype) : list pitem :=
   map (parse_item O def_mod t) (split_semi patch_funcs []).
 
-(* the module test of match_pattern_list: pl->module is a prefix of basename(map->libname) or of
-   the soname *)
-Definition mod_applies (lib : bytes) (so : option bytes) (m : bytes) : bool :=
-  prefixb m (basename lib) || match so with Some s => prefixb m s | None => false end.
+(* the module test of match_pattern_list / match_pattern_module: a given "@module" is a prefix of
+   basename(map->libname) or of the soname; the default module must be equal to one of them.
+   [mod_applies_legacy]: the code as found compared the default module as a prefix too. *)
+Definition mod_applies_gen (exact : bool) (lib : bytes) (so : option bytes) (m : bytes) : bool :=
+  let cmp := if exact then bytes_eqb else prefixb in
+  cmp m (basename lib) || match so with Some s => cmp m s | None => false end.
+Definition mod_applies (lib : bytes) (so : option bytes) (p : pitem) : bool :=
+  mod_applies_gen (pi_exact p) lib so (pi_mod p).
+Definition mod_applies_legacy (lib : bytes) (so : option bytes) (p : pitem) : bool :=
+  mod_applies_gen false lib so (pi_mod p).
 
 Definition item_hits (O : oracle) (lib : bytes) (so : option bytes) (name : bytes) (p : pitem) : bool :=
-  mod_applies lib so (pi_mod p) && matches O (pi_patt p) name.
+  mod_applies lib so p && matches O (pi_patt p) name.
 
 (* match_pattern_list: the loop overwrites ret at every hit *)
 Definition match_pattern_list (O : oracle) (pl : list pitem) (lib : bytes) (so : option bytes)
@@ -127,7 +136,7 @@ Definition match_pattern_list (O : oracle) (pl : list pitem) (lib : bytes) (so :
 (* match_pattern_module (mcount_dynamic_dlopen): a dlopen()ed library is looked at only if some
    pattern's module is a prefix of its file name or soname *)
 Definition match_pattern_module (pl : list pitem) (path : bytes) (so : option bytes) : bool :=
-  existsb (fun p => mod_applies path so (pi_mod p)) pl.
+  existsb (fun p => mod_applies path so p) pl.
 
 (* the command line: -P x  appends "x", -U x appends "!x", joined by ';' (uftrace.c) *)
 Inductive cliopt := OptP (arg : bytes) | OptU (arg : bytes).
@@ -572,7 +581,7 @@ Definition ptype_eqb (a b : ptype) : bool :=
   match a, b with PSimple, PSimple | PRegex, PRegex | PGlob, PGlob => true | _, _ => false end.
 Definition pitem_eqb (a b : pitem) : bool :=
   ptype_eqb (pt_type (pi_patt a)) (pt_type (pi_patt b)) && bytes_eqb (pt_str (pi_patt a)) (pt_str (pi_patt b))
-  && bytes_eqb (pi_mod a) (pi_mod b) && Bool.eqb (pi_pos a) (pi_pos b).
+  && bytes_eqb (pi_mod a) (pi_mod b) && Bool.eqb (pi_pos a) (pi_pos b) && Bool.eqb (pi_exact a) (pi_exact b).
 Fixpoint list_eqb {A B} (f : A -> B -> bool) (a : list A) (b : list B) : bool :=
   match a, b with
   | [], [] => true
@@ -606,14 +615,15 @@ Definition p_agrees (c : pcase) : bool :=
 Fixpoint last_hit_bits (items : list pitem) (bits : list bool) (lib : bytes) (so : option bytes)
          (acc : option pitem) : option pitem :=
   match items, bits with
-  | p :: r, b :: rb => last_hit_bits r rb lib so (if mod_applies lib so (pi_mod p) && b then Some p else acc)
+  | p :: r, b :: rb => last_hit_bits r rb lib so (if mod_applies lib so p && b then Some p else acc)
   | _, _ => acc
   end.
 Definition cli_item_ok (defmod : bytes) (o : cliopt) (p : pitem) : bool :=
   let '(arg, pos) := match o with OptP a => (a, true) | OptU a => (a, false) end in
   let '(pat, modopt) := split_at arg in
   Bool.eqb (pi_pos p) pos && bytes_eqb (pt_str (pi_patt p)) pat
-  && bytes_eqb (pi_mod p) (match modopt with Some m => m | None => defmod end).
+  && bytes_eqb (pi_mod p) (match modopt with Some m => m | None => defmod end)
+  && Bool.eqb (pi_exact p) (match modopt with Some _ => false | None => true end).
 Definition p_ok (c : pcase) : bool :=
   forallb (fun q => (q_ret q =? polarity (last_hit_bits (p_items c) (q_bits q) (q_lib q) (q_so q) None))%Z
                     && Nat.eqb (length (q_bits q)) (length (p_items c)))
@@ -624,7 +634,7 @@ Definition p_ok (c : pcase) : bool :=
      end
   (* a library is skipped exactly when no item's module applies to it *)
   && forallb (fun x => let '(path, so, r) := x in
-                       Bool.eqb (existsb (fun p => mod_applies path so (pi_mod p)) (p_items c)) r) (p_mods c).
+                       Bool.eqb (existsb (fun p => mod_applies path so p) (p_items c)) r) (p_mods c).
 
 Definition dyntype_of (n : N) : dyntype :=
   match n with 1 => DPg | 2 => DFentry | 3 => DFentryNop | 4 => DXray | 5 => DPatchable | _ => DNone end.
@@ -787,10 +797,22 @@ Definition requested_min (v : Z) : N := if v <=? 0 then 0%N else Z.to_N v.
 Local Close Scope Z_scope.
 
 (* ------------------------------------------------------------------ end-to-end cases *)
+(* which modules mcount_dynamic_update / mcount_dynamic_dlopen look at: the main executable always; a
+   library loaded at start-up only when some pattern carries an '@' (needs_modules); a dlopen()ed library
+   when match_pattern_module accepts it *)
+Inductive mkind := MMain | MLoadLib | MDlopen.
+Definition needs_modules (patch_funcs : bytes) : bool := memb 64 patch_funcs.
+Definition module_visited (k : mkind) (patch_funcs : bytes) (pl : list pitem) (lib : bytes) (so : option bytes) : bool :=
+  match k with
+  | MMain => true
+  | MLoadLib => needs_modules patch_funcs
+  | MDlopen => match_pattern_module pl lib so
+  end.
+
 Record ecase := {
   e_ptype : ptype; e_funcs : bytes; e_defmod : bytes;
   e_regok : list (bytes * bool); e_tbl : list (bytes * bytes * bool);
-  e_sect : elf_sect; e_chk : Z; e_zarg : Z; e_lib : bytes;
+  e_sect : elf_sect; e_chk : Z; e_zarg : Z; e_lib : bytes; e_so : option bytes; e_kind : mkind;
   e_text_addr : Z; e_text_size : Z; e_next_mapped : bool;
   e_wbase : N; e_before : bytes; e_syms : list sym; e_targets : list N;
   (* observed on the real uftrace record run *)
@@ -804,7 +826,10 @@ Definition e_type (e : ecase) : dyntype :=
   find_module_type true (e_sect e) (chk_type (e_chk e)) (mem_of (e_wbase e) (e_before e)) (e_syms e).
 Definition e_cfg (e : ecase) (tramp : Z) (mn : N) : cfg :=
   {| c_pats := parse_pattern_list (e_oracle e) (e_funcs e) (e_defmod e) (e_ptype e);
-     c_lib := e_lib e; c_so := None; c_ty := e_type e; c_tramp := tramp; c_min := mn |}.
+     c_lib := e_lib e; c_so := e_so e; c_ty := e_type e; c_tramp := tramp; c_min := mn |}.
+Definition e_visited (e : ecase) : bool :=
+  module_visited (e_kind e) (e_funcs e) (parse_pattern_list (e_oracle e) (e_funcs e) (e_defmod e) (e_ptype e))
+                 (e_lib e) (e_so e).
 Definition optZ_eqb (a b : option Z) : bool :=
   match a, b with None, None => true | Some x, Some y => (x =? y)%Z | _, _ => false end.
 Definition e_pm (e : ecase) : pmap :=
@@ -815,6 +840,7 @@ Definition names_subset (a b : list bytes) : bool := forallb (fun n => existsb (
 Definition names_eq (a b : list bytes) : bool := names_subset a b && names_subset b a.
 
 Definition e_model (fixed : bool) (e : ecase) : option (bytes * list bytes) :=
+  if negb (e_visited e) then Some (e_before e, []) else
   match setup_trampoline_v fixed (e_pm e)
           {| d_text_addr := e_text_addr e; d_text_size := e_text_size e; d_tramp := 0; d_ty := e_type e |} with
   | SetupFatal => None
